@@ -472,7 +472,10 @@ func TestC03(t *testing.T) {
 					panic(err)
 				}
 				label := fmt.Sprintf("R=%d start=%d T=%d manual=%v", R, n0, T, s%4 != 3)
-				w := &world{c: c, w: pw, rng: rng, dm: "reb", R: R, hadB: map[string]bool{}, sinceLeave: map[string]bool{}, dms: map[int]olric.DMap{}}
+				// every second scenario uses a DMap whose own name begins with the prefix that fragment names carry
+				dmName := []string{"reb", "dmap.reb"}[s%2]
+				label += " dmap=" + dmName
+				w := &world{c: c, w: pw, rng: rng, dm: dmName, R: R, hadB: map[string]bool{}, sinceLeave: map[string]bool{}, dms: map[int]olric.DMap{}}
 				for i := 0; i < 24; i++ {
 					w.keys = append(w.keys, fmt.Sprintf("k%d", i))
 				}
